@@ -253,6 +253,9 @@ Qed.
 Lemma u32_small z : 0 <= z < two32 -> u32 z = z.
 Proof. intros. unfold u32. apply Z.mod_small. assumption. Qed.
 
+Lemma sc_invb_ok s : sc_invb s = true -> sc_inv s.
+Proof. unfold sc_invb, sc_inv. intros H. repeat (apply andb_true_iff in H as [H ?]). repeat split; try lia. assumption. Qed.
+
 Lemma sc_rep s : sc_inv s -> Rep (sc_sl s) (sc_n s) (sc_live s).
 Proof.
   intros (Hw & Hn & Hl & Hc & Hi). unfold sc_live. rsplit; try lia; [|reflexivity].
@@ -511,7 +514,7 @@ Lemma jump_refuted :
               sc_add s n = Panic "seqCounters.add:slice".
 Proof.
   exists (sc_of 4 [1; 2; 3; 4]), 100. split; [vm_compute; reflexivity|]. split.
-  - unfold sc_inv. vm_compute. repeat split; congruence.
+  - apply sc_invb_ok. vm_compute. reflexivity.
   - split; vm_compute; reflexivity.
 Qed.
 
@@ -521,7 +524,7 @@ Lemma counters_refine_refuted :
                  sc_add s n = Ok s' /\ sc_live s = [(5, 1); (7, 1)] /\ sc_live s' = [(6, 1); (7, 1)].
 Proof.
   exists (sc_of 4 [5; 7]), 6, (sc_of 4 [5; 7; 6]). split; [vm_compute; reflexivity|]. split.
-  - unfold sc_inv. vm_compute. repeat split; congruence.
+  - apply sc_invb_ok. vm_compute. reflexivity.
   - repeat split; vm_compute; reflexivity.
 Qed.
 
@@ -530,8 +533,10 @@ Lemma counters_insert_breaks_inv :
   exists s n s', sc_inv s /\ sc_add s n = Ok s' /\ ~ sc_inv s'.
 Proof.
   exists (sc_of 8 [5; 7; 9]), 6, (sc_of 8 [5; 7; 9; 6]). split.
-  - unfold sc_inv. vm_compute. repeat split; congruence.
-  - split; [vm_compute; reflexivity|]. intros (_ & _ & _ & _ & H). vm_compute in H. discriminate.
+  - apply sc_invb_ok. vm_compute. reflexivity.
+  - split; [vm_compute; reflexivity|]. intros (_ & _ & _ & _ & H).
+    assert (E : incr (map fst (sc_live (sc_of 8 [5; 7; 9; 6]))) = false) by (vm_compute; reflexivity).
+    rewrite E in H. discriminate.
 Qed.
 
 (** seqCounters.resize to a smaller window keeps _nrCounters above len *)
@@ -541,7 +546,7 @@ Lemma shrink_counters_refuted :
 Proof.
   exists (sc_of 8 [1; 2; 3; 4; 5]).
   eexists. split.
-  - unfold sc_inv. vm_compute. repeat split; congruence.
+  - apply sc_invb_ok. vm_compute. reflexivity.
   - split; [vm_compute; reflexivity|]. repeat split; vm_compute; reflexivity.
 Qed.
 
@@ -681,6 +686,13 @@ Proof.
 Qed.
 
 (** * segDataBuffer *)
+Lemma sdb_invb_ok b : sdb_invb b = true -> sdb_inv b.
+Proof.
+  unfold sdb_invb, sdb_inv. intros H. repeat (apply andb_true_iff in H as [H ?]).
+  repeat split; try lia; try assumption.
+  apply Forall_forall. intros i Hi. rewrite forallb_forall in H0. specialize (H0 i Hi). lia.
+Qed.
+
 Lemma sdb_rep b : sdb_inv b -> Rep (b_sl b) (b_n b) (sdb_live b).
 Proof.
   intros (Hw & Hn & Hl & Hc & Hi & Hr). unfold sdb_live. rsplit; try lia; [|reflexivity].
@@ -988,6 +1000,291 @@ Lemma shrink_refuted :
                sdb_add b' (mkItem 6 12000 2000 false) = Panic "segDataBuffer.add:index".
 Proof.
   exists (sdb_of 8 [1; 2; 3; 4; 5]). eexists. split.
-  - unfold sdb_inv. vm_compute. repeat split; try congruence. repeat constructor; congruence.
+  - apply sdb_invb_ok. vm_compute. reflexivity.
   - split; [vm_compute; reflexivity|]. repeat split; vm_compute; reflexivity.
+Qed.
+
+(** * segmentTimelineGenerator *)
+Lemma lookup_Forall {B} (P : Z * B -> Prop) name (l : list (Z * B)) b :
+  Forall P l -> lookup name l = Some b -> exists k, P (k, b).
+Proof.
+  induction l as [|[k v] l IH]; intros F H; [discriminate|].
+  cbn [lookup] in H. inversion F; subst. destruct (k =? name); [inversion H; subst; eauto|auto].
+Qed.
+
+Lemma update_Forall {B} (P : Z * B -> Prop) name v (l : list (Z * B)) :
+  (forall k, P (k, v)) -> Forall P l -> Forall P (update name v l).
+Proof.
+  intros Hv. induction l as [|[k v0] l IH]; intros F; cbn [update].
+  - constructor; [apply Hv|constructor].
+  - inversion F; subst. destruct (k =? name); constructor; auto.
+Qed.
+
+Lemma lookup_update_same {B} name v (l : list (Z * B)) : lookup name (update name v l) = Some v.
+Proof.
+  induction l as [|[k v0] l IH]; cbn [update lookup].
+  - rewrite Z.eqb_refl. reflexivity.
+  - destruct (k =? name) eqn:E; cbn [lookup]; rewrite E; auto.
+Qed.
+
+Lemma buf_of_inv g name : gen_inv g -> sdb_inv (buf_of g name) /\ b_size (buf_of g name) = g_w g.
+Proof.
+  intros (Ic & Ew & Hw & Fb & Hl). unfold buf_of. destruct (lookup name (g_bufs g)) as [b|] eqn:E.
+  - destruct (lookup_Forall _ _ _ _ Fb E) as (k & Hk). exact Hk.
+  - split; [apply sdb_new_inv; exact Hw|reflexivity].
+Qed.
+
+Lemma item_okb_ok it : item_okb it = true -> item_ok it.
+Proof. unfold item_okb, item_ok. lia. Qed.
+
+Ltac fin_add :=
+  split; [unfold gen_inv; cbn [g_cnt g_w g_bufs g_latest];
+          split; [assumption|split; [lia|split; [lia|split; [assumption|lia]]]]
+         |do 5 (split; [reflexivity|]); intros _; cbn [g_bufs]; rewrite lookup_update_same; discriminate].
+
+Lemma gen_add_inv g name it :
+  gen_inv g -> item_ok it -> gen_add_pre g name it = true ->
+  exists g' n ok, gen_addSegmentData g name it = Ok (g', n, ok) /\ gen_inv g'
+    /\ g_latest g' = g_latest g /\ g_w g' = g_w g /\ g_ntracks g' = g_ntracks g
+    /\ g_started g' = g_started g /\ g_shifted g' = g_shifted g
+    /\ (g_shifted g && negb (i_shifted it) = false -> lookup name (g_bufs g') <> None).
+Proof.
+  intros I Hit P. pose proof I as (Ic & Ew & Hw & Fb & Hl).
+  unfold gen_addSegmentData, gen_add_pre in *.
+  destruct (g_shifted g && negb (i_shifted it)) eqn:Esh.
+  { do 3 eexists; split; [reflexivity|]. split; [exact I|]. do 5 (split; [reflexivity|]). intros ?; congruence. }
+  fold (buf_of g name) in *. destruct (buf_of_inv g name I) as (Ib & Sb).
+  destruct (sdb_add_spec _ it Ib Hit) as (b' & ok & Ha & Ib' & _ & Sb').
+  rewrite Ha in *. cbn [bind].
+  assert (Fb' : Forall (fun kb => sdb_inv (snd kb) /\ b_size (snd kb) = g_w g) (update name b' (g_bufs g))).
+  { apply update_Forall; [|exact Fb]. intros k. cbn [snd]. split; [exact Ib'|lia]. }
+  destruct ok; cbn [negb].
+  - destruct (sc_add_spec _ _ Ic P) as (c' & Hc & Ic' & _ & Wc). rewrite Hc. cbn [bind].
+    destruct (g_started g).
+    + destruct (sc_newFull_ok c' (g_ntracks g) (g_latest g) Ic') as (n & Hn). rewrite Hn. cbn [bind].
+      do 3 eexists; split; [reflexivity|]. fin_add.
+    + do 3 eexists; split; [reflexivity|]. fin_add.
+  - do 3 eexists; split; [reflexivity|]. fin_add.
+Qed.
+
+Lemma timeline_loop_ok b : sdb_inv b -> forall n seqNr cur done,
+  exists r, timeline_loop b seqNr n cur done = Ok r.
+Proof.
+  intros I. induction n as [|n IH]; intros seqNr cur done; [cbn; eauto|].
+  cbn [timeline_loop]. destruct (sdb_getItem_ok b seqNr I) as (oi & Ho & _). rewrite Ho. cbn [bind].
+  destruct oi as [sd|]; [|eauto]. destruct cur as [[[t d] r]|]; [|apply IH].
+  destruct (i_dur sd =? d); apply IH.
+Qed.
+
+Lemma timelines_ok g first last : gen_inv g -> forall asets, exists r, timelines g first last asets = Ok r.
+Proof.
+  intros I. pose proof I as (Ic & Ew & Hw & Fb & Hl).
+  induction asets as [|reps rest IH]; [cbn; eauto|].
+  cbn [timelines]. destruct reps as [|rep reps]; [eauto|].
+  destruct (lookup rep (g_bufs g)) as [b|] eqn:E; [|eauto].
+  destruct (lookup_Forall _ _ _ _ Fb E) as (k & Ib & _). cbn [snd] in Ib.
+  destruct (timeline_loop_ok b Ib (Z.to_nat (last - first + 1)) first None []) as (tl & Ht). rewrite Ht. cbn [bind].
+  destruct tl as [tl|]; [|eauto]. destruct IH as (r & Hr). rewrite Hr. cbn [bind]. destruct r; eauto.
+Qed.
+
+(** generate: never panics, keeps the invariant, only ever raises latestSeqNr, and publishes only for
+    a number above latestSeqNr *)
+Lemma gen_generate_inv g nl asets :
+  gen_inv g ->
+  exists g' p, gen_generate g nl asets = Ok (g', p) /\ gen_inv g'
+    /\ g_bufs g' = g_bufs g /\ g_cnt g' = g_cnt g /\ g_w g' = g_w g /\ g_ntracks g' = g_ntracks g
+    /\ g_started g' = g_started g /\ g_shifted g' = g_shifted g
+    /\ match p with
+       | None => g' = g
+       | Some pub => g_latest g < nl /\ nl <= p_last pub /\ g_latest g' = p_last pub
+       end.
+Proof.
+  intros I. pose proof I as (Ic & Ew & Hw & Fb & Hl).
+  unfold gen_generate. destruct (sc_fullRange_ok (g_cnt g) (g_ntracks g) Ic) as ([first last] & Hf).
+  rewrite Hf. cbn [bind]. destruct (nl <=? g_latest g) eqn:E1.
+  { do 2 eexists; split; [reflexivity|]. split; [exact I|]. repeat split. }
+  destruct (last <? nl) eqn:E2.
+  { do 2 eexists; split; [reflexivity|]. split; [exact I|]. repeat split. }
+  destruct (timelines_ok g first last I asets) as (tls & Ht). rewrite Ht. cbn [bind].
+  destruct tls as [tls|].
+  - do 2 eexists; split; [reflexivity|]. split.
+    + unfold gen_inv. cbn [g_cnt g_w g_bufs g_latest].
+      split; [assumption|split; [lia|split; [lia|split; [assumption|lia]]]].
+    + cbn [g_cnt g_w g_bufs g_latest g_ntracks g_started g_shifted p_last]. repeat split; lia.
+  - do 2 eexists; split; [reflexivity|]. split; [exact I|]. repeat split.
+Qed.
+
+Lemma map_bufs_spec (f : sdb -> res sdb) (P P' : Z * sdb -> Prop) :
+  (forall k b, P (k, b) -> exists b', f b = Ok b' /\ P' (k, b')) ->
+  forall l, Forall P l -> exists l', map_bufs f l = Ok l' /\ Forall P' l' /\ map fst l' = map fst l.
+Proof.
+  intros Hf. induction l as [|[k b] l IH]; intros F; [cbn; eauto|].
+  inversion F; subst. cbn [map_bufs]. destruct (Hf k b H1) as (b' & Hb & Pb). rewrite Hb. cbn [bind].
+  destruct (IH H2) as (l' & Hl & Fl & Ek). rewrite Hl. cbn [bind]. eexists; split; [reflexivity|].
+  split; [constructor; assumption|]. cbn [map fst]. f_equal. exact Ek.
+Qed.
+
+Lemma lookup_none_keys {B C} name (l : list (Z * B)) (l' : list (Z * C)) :
+  map fst l' = map fst l -> lookup name l <> None -> lookup name l' <> None.
+Proof.
+  revert l'; induction l as [|[k v] l IH]; intros l' E H; [cbn in H; congruence|].
+  destruct l' as [|[k' v'] l']; [discriminate|]. cbn [map fst] in E. inversion E; subst.
+  cbn [lookup] in *. destruct (k =? name); [discriminate|]. eapply IH; eauto.
+Qed.
+
+Lemma gen_drop_inv g n :
+  gen_inv g ->
+  exists g', gen_dropSeqNr g n = Ok g' /\ gen_inv g'
+    /\ g_latest g' = g_latest g /\ g_w g' = g_w g /\ g_ntracks g' = g_ntracks g
+    /\ g_started g' = g_started g /\ g_shifted g' = g_shifted g.
+Proof.
+  intros I. pose proof I as (Ic & Ew & Hw & Fb & Hl). unfold gen_dropSeqNr.
+  destruct (map_bufs_spec (fun b => sdb_dropSeqNr b n) _ (fun kb => sdb_inv (snd kb) /\ b_size (snd kb) = g_w g)
+              (fun k b H => match sdb_dropSeqNr_inv b n (proj1 H) with
+                            | ex_intro _ b' (conj A (conj B (conj C D))) =>
+                              ex_intro _ b' (conj A (conj B (eq_trans C (proj2 H)))) end) _ Fb) as (l' & Hm & Fl & _).
+  rewrite Hm. cbn [bind]. destruct (sc_drop_inv _ n Ic) as (c' & Hc & Ic' & Wc & _). rewrite Hc. cbn [bind].
+  eexists; split; [reflexivity|]. split.
+  - unfold gen_inv. cbn [g_cnt g_w g_bufs g_latest].
+    split; [assumption|split; [lia|split; [lia|split; [assumption|lia]]]].
+  - repeat split.
+Qed.
+
+Lemma sc_drop_all_inv l : forall c, sc_inv c -> exists c', sc_drop_all c l = Ok c' /\ sc_inv c' /\ sc_w c' = sc_w c.
+Proof.
+  induction l as [|n l IH]; intros c I; [cbn; eauto|].
+  cbn [sc_drop_all]. destruct (sc_drop_inv c n I) as (c1 & H1 & I1 & W1 & _). rewrite H1. cbn [bind].
+  destruct (IH c1 I1) as (c' & H' & I' & W'). exists c'. split; [exact H'|split; [exact I'|lia]].
+Qed.
+
+Lemma gen_unshift_inv w : forall l c,
+  Forall (fun kb => sdb_inv (snd kb) /\ b_size (snd kb) = w) l -> sc_inv c ->
+  exists l' c', gen_unshift l c = Ok (l', c') /\ Forall (fun kb => sdb_inv (snd kb) /\ b_size (snd kb) = w) l'
+                /\ sc_inv c' /\ sc_w c' = sc_w c.
+Proof.
+  induction l as [|[k b] l IH]; intros c F I; [cbn; eauto 6|].
+  inversion F as [|? ? [Ib Sb] F']; subst. cbn [snd] in *. cbn [gen_unshift].
+  destruct (sdb_removeUnshifted_inv b Ib) as (b' & uns & Hr & Ib' & Sb' & _). rewrite Hr. cbn [bind].
+  destruct (sc_drop_all_inv uns c I) as (c1 & H1 & I1 & W1). rewrite H1. cbn [bind].
+  destruct (IH c1 F' I1) as (l' & c' & H' & Fl & I' & W'). rewrite H'. cbn [bind].
+  do 2 eexists; split; [reflexivity|]. split; [constructor; [cbn [snd]; split; [exact Ib'|lia]|exact Fl]|]. split; [exact I'|lia].
+Qed.
+
+Lemma gen_start_inv g nw sh :
+  gen_inv g -> gen_resize_pre g nw = true ->
+  exists g', gen_start g nw sh = Ok g' /\ gen_inv g' /\ g_latest g' = g_latest g /\ g_w g' = nw
+             /\ g_started g' = true /\ g_shifted g' = sh.
+Proof.
+  intros I P. pose proof I as (Ic & Ew & Hw & Fb & Hl).
+  unfold gen_resize_pre in P. apply andb_true_iff in P as [P Pb]. rewrite forallb_forall in Pb.
+  assert (Hnw : 0 < nw < two32) by lia. assert (Hcn : sc_n (g_cnt g) <= nw) by lia.
+  unfold gen_start, gen_resize.
+  assert (Fb2 : Forall (fun kb => (sdb_inv (snd kb) /\ b_size (snd kb) = g_w g) /\ b_n (snd kb) <= nw) (g_bufs g)).
+  { apply Forall_forall. intros kb Hin. split; [exact (proj1 (Forall_forall _ _) Fb kb Hin)|].
+    specialize (Pb kb Hin). lia. }
+  destruct (map_bufs_spec (fun b => sdb_resize b nw) _ (fun kb => sdb_inv (snd kb) /\ b_size (snd kb) = nw)
+              (fun k b H => match sdb_resize_inv b nw (proj1 (proj1 H)) Hnw (proj2 H) with
+                            | ex_intro _ b' (conj A (conj B (conj C (conj D E)))) =>
+                              ex_intro _ b' (conj A (conj B D)) end) _ Fb2) as (l1 & Hm & Fl1 & _).
+  rewrite Hm. cbn [bind]. destruct (sc_resize_inv _ nw Ic Hnw Hcn) as (c1 & Hc & Ic1 & _ & Wc1 & _).
+  rewrite Hc. cbn [bind g_bufs g_cnt].
+  destruct sh.
+  - destruct (gen_unshift_inv nw l1 c1 Fl1 Ic1) as (l2 & c2 & Hu & Fl2 & Ic2 & Wc2). rewrite Hu. cbn [bind].
+    eexists; split; [reflexivity|]. split.
+    + unfold gen_inv. cbn [g_cnt g_w g_bufs g_latest].
+      split; [assumption|split; [lia|split; [lia|split; [assumption|lia]]]].
+    + repeat split.
+  - cbn [bind]. eexists; split; [reflexivity|]. split.
+    + unfold gen_inv. cbn [g_cnt g_w g_bufs g_latest].
+      split; [assumption|split; [lia|split; [lia|split; [assumption|lia]]]].
+    + repeat split.
+Qed.
+
+(** * channel.receivedSegData *)
+Lemma derive_ok g tracks :
+  tracks_ready g tracks = true -> derive_bitrates g tracks = Ok tt /\ derive_framerates g tracks = Ok tt.
+Proof.
+  induction tracks as [|t r IH]; intros H; [split; reflexivity|].
+  cbn [tracks_ready forallb] in H. apply andb_true_iff in H as [Ht Hr]. destruct (IH Hr) as (B & F).
+  cbn [derive_bitrates derive_framerates]. destruct (lookup (tr_name t) (g_bufs g)) as [b|].
+  - split.
+    + destruct (tr_btrt t); cbn [bind orb] in *; [exact B|].
+      destruct (sum_durs (takeZ (b_n b) (arr (b_sl b))) =? 0); [discriminate|]. cbn [bind]. exact B.
+    + destruct (negb (tr_video t)); cbn [bind]; exact F.
+  - apply andb_true_iff in Ht as [H1 H2]. rewrite H1, H2. cbn [bind]. split; assumption.
+Qed.
+
+Lemma sl_get_arr {A} site (sl : slice A) i :
+  0 <= i < slen sl -> slen sl <= scap sl ->
+  exists x, nthZ i (arr sl) = Some x /\ sl_get site sl i = Ok x.
+Proof.
+  intros Hi Hc. unfold scap in Hc. destruct (nthZ_some (arr sl) i ltac:(lia)) as (x & Hx).
+  exists x. split; [exact Hx|]. unfold sl_get, idx_ok, scap, index.
+  replace ((0 <=? i) && (i <? slen sl) && (i <? lenZ (arr sl))) with true by lia. rewrite Hx. reflexivity.
+Qed.
+
+Lemma with_gen_fields c g :
+  ch_gen (with_gen c g) = g /\ ch_mdur (with_gen c g) = ch_mdur c /\ ch_tracks (with_gen c g) = ch_tracks c
+  /\ ch_master (with_gen c g) = ch_master c.
+Proof. repeat split. Qed.
+
+(** receivedSegData for one complete segment: under [chan_pre] no panic and the invariant is kept *)
+Lemma chan_received_safe c u :
+  chan_inv c -> chan_pre c u = true ->
+  exists o, chan_received c (up_name u) (up_item u) = Ok o /\ chan_inv (o_chan o).
+Proof.
+  destruct u as [name it]. cbn [up_name up_item]. intros (Ig & Ish) P.
+  unfold chan_pre in P. cbn [up_name up_item] in P. unfold chan_received.
+  destruct (find_track name (ch_tracks c)) as [tr|] eqn:Eft.
+  2:{ eexists; split; [reflexivity|]. split; assumption. }
+  apply andb_true_iff in P as [P Pst]. apply andb_true_iff in P as [Pit Padd].
+  pose proof (item_okb_ok _ Pit) as Hit.
+  destruct (gen_add_inv _ name it Ig Hit Padd) as (g1 & n & ok & Ha & I1 & L1 & W1 & N1 & S1 & Sh1 & Lk1).
+  unfold chan_mid in Pst. rewrite Ha in *. cbn [bind] in *.
+  assert (Hmid : exists g2 pub, (if n =? 0 then Ok (g1, None) else gen_generate g1 n (chan_asets c)) = Ok (g2, pub)
+                   /\ gen_inv g2 /\ g_bufs g2 = g_bufs g1 /\ g_shifted g2 = g_shifted g1).
+  { destruct (n =? 0).
+    - do 2 eexists; split; [reflexivity|]. auto.
+    - destruct (gen_generate_inv g1 n (chan_asets c) I1) as (g2 & p & Hg & I2 & B2 & _ & _ & _ & _ & Sh2 & _).
+      do 2 eexists; split; [exact Hg|]. auto. }
+  destruct Hmid as (g2 & pub & Hm & I2 & B2 & Sh2). rewrite Hm in *. cbn [bind] in *.
+  destruct ((ch_mdur c =? 0) && (name =? ch_master c)) eqn:Emeas.
+  2:{ eexists; split; [reflexivity|]. cbn [o_chan]. split; [exact I2|].
+      change (ch_gen (with_gen c g2)) with g2. change (ch_mdur (with_gen c g2)) with (ch_mdur c).
+      rewrite Sh2, Sh1. exact Ish. }
+  (* the master track is being measured *)
+  assert (Hm0 : ch_mdur c = 0) by lia.
+  assert (Hns : g_shifted (ch_gen c) = false).
+  { destruct (g_shifted (ch_gen c)) eqn:E; [|reflexivity]. exfalso. apply Ish; auto. }
+  assert (Hlk : lookup name (g_bufs g2) <> None).
+  { rewrite B2. apply Lk1. rewrite Hns. reflexivity. }
+  unfold chan_start_pre in Pst. rewrite Emeas in Pst.
+  destruct (lookup name (g_bufs g2)) as [b|] eqn:Elk; [|congruence].
+  pose proof I2 as (Ic2 & Ew2 & Hw2 & Fb2 & Hl2).
+  destruct (lookup_Forall _ _ _ _ Fb2 Elk) as (k & Ib & Sb). cbn [snd] in Ib, Sb.
+  pose proof Ib as (Hbw & Hbn & Hbl & Hbc & _).
+  destruct (b_n b <? 2) eqn:E2.
+  { eexists; split; [reflexivity|]. cbn [o_chan]. split; [exact I2|].
+    change (ch_gen (with_gen c g2)) with g2. rewrite Sh2, Sh1, Hns. discriminate. }
+  destruct (sl_get_arr "channel.receivedSegData:index" (b_sl b) 0 ltac:(lia) ltac:(lia)) as (i0 & N0 & G0).
+  destruct (sl_get_arr "channel.receivedSegData:index" (b_sl b) 1 ltac:(lia) ltac:(lia)) as (i1 & N1' & G1).
+  rewrite G0, G1. cbn [bind]. rewrite N0, N1' in Pst.
+  destruct (negb (i_seq i1 =? u32 (i_seq i0 + 1)) || negb (i_dur i1 =? i_dur i0)) eqn:Econs.
+  { destruct (gen_drop_inv g2 (i_seq i0) I2) as (g3 & Hd & I3 & _ & _ & _ & _ & Sh3). rewrite Hd. cbn [bind].
+    eexists; split; [reflexivity|]. cbn [o_chan]. split; [exact I3|].
+    change (ch_gen (with_gen (with_gen c g2) g3)) with g3. rewrite Sh3, Sh2, Sh1, Hns. discriminate. }
+  (* the channel starts *)
+  rewrite Eft in *.
+  apply andb_true_iff in Pst as [Pst Pres]. apply andb_true_iff in Pst as [Pdur Prdy].
+  assert (Hdur : i_dur i1 <> 0) by lia.
+  unfold go_div, go_rem. replace (i_dur i1 =? 0) with false by lia. cbn [bind].
+  destruct (derive_ok _ _ Prdy) as (Db & Df). rewrite Db, Df. cbn [bind].
+  unfold start_window in Pres.
+  destruct (gen_start_inv g2 _ (negb ((if Z.rem (i_dts i0) (i_dur i1) =? 0
+                                       then if Z.quot (i_dts i0) (i_dur i1) =? i_seq i0 then 0 else Z.quot (i_dts i0) (i_dur i1) - i_seq i0
+                                       else (if Z.quot (i_dts i0) (i_dur i1) =? i_seq i0 then 0 else Z.quot (i_dts i0) (i_dur i1) - i_seq i0) + 1) =? 0)
+                                || negb ((if Z.rem (i_dts i0) (i_dur i1) =? 0 then 0 else i_dur i1 - Z.rem (i_dts i0) (i_dur i1)) =? 0))
+                           I2 Pres) as (g3 & Hs & I3 & _ & _ & _ & _).
+  rewrite Hs. cbn [bind]. eexists; split; [reflexivity|]. cbn [o_chan]. split; [exact I3|].
+  cbn [ch_mdur]. intros _. exact Hdur.
 Qed.
